@@ -84,8 +84,11 @@ def make_unit(iset, cube_name, cube_pred, memarch='PMSA', nregions=1, props=('C1
         # ---- ValidState
         eng.assume(lnot(ST.bad_mode(mode0, cfg['have_security_ext'], cfg['have_virt_ext'])))
         eng.assume(bits(init['R.PC'], 1 if iset == 'arm' else 0, 0) == 0)
+        it0_ = ST.cpsr_field(cpsr0, 'it')
         if iset == 'arm':
-            eng.assume(ST.cpsr_field(cpsr0, 'it') == 0)       # ITSTATE is zero outside Thumb state
+            eng.assume(it0_ == 0)       # ITSTATE is zero outside Thumb state
+        else:
+            eng.assume(implies(bits(it0_, 3, 0) == 0, it0_ == 0))      # the only ITSTATE with an empty mask is 0
         for nm in ('hvbar', 'mvbar', 'vbar'):
             eng.assume(bits(init[nm], 4, 0) == 0)
         eng.assume(bits(init['mpuir'], 15, 8) <= nregions)
@@ -94,7 +97,7 @@ def make_unit(iset, cube_name, cube_pred, memarch='PMSA', nregions=1, props=('C1
         instr = cube_pred(eng, oplen)
         if not eng.prefix:
             eng.cover('ValidState and instruction cube satisfiable')
-        events = []
+        events = eng.register([])
 
         def hook(model):
             acc = []
